@@ -9,6 +9,33 @@ POSTCONDITION Accepted
 CHECK_DEADLOCK FALSE
 """
 
+def apalache(args, name, expect_ok=True):
+    """One Apalache run on spec/Backoff.tla (unbounded integers).  Returns wall time."""
+    import subprocess
+    wd = workdir("apalache-" + name)
+    t0 = time.time()
+    try:
+        p = subprocess.run(["apalache-mc", "check", f"--out-dir={wd}", f"--run-dir={wd}/run"] + args + [os.path.join(SPEC, "Backoff.tla")],
+                           cwd=wd, stdout=subprocess.PIPE, stderr=subprocess.STDOUT, text=True, timeout=900)
+    except subprocess.TimeoutExpired:
+        raise ToolError(f"apalache timed out on {name}")
+    open(os.path.join(wd, "apalache.out"), "w").write(p.stdout)
+    ok = "EXITCODE: OK" in p.stdout
+    bad = "EXITCODE: ERROR (12)" in p.stdout          # invariant violation found
+    if expect_ok and not ok:
+        raise ToolError(f"apalache obligation {name} not discharged (see {wd}/apalache.out)")
+    if not expect_ok and not bad:
+        raise ToolError(f"apalache negative control {name} found no violation (see {wd}/apalache.out)")
+    return {"name": name, "wall_s": round(time.time() - t0, 1), "discharged": ok}
+
+def backoff_proof():
+    """The back-off arithmetic for EVERY period: inductive invariant by Apalache (Backoff.tla)."""
+    obl = [apalache(["--cinit=ConstInit", "--init=Init", "--length=0", "--inv=IndInv"], "init-implies-indinv"),
+           apalache(["--cinit=ConstInit", "--init=IndInit", "--length=1", "--inv=IndInv"], "indinv-is-inductive"),
+           apalache(["--cinit=ConstInit", "--init=IndInit", "--length=0", "--inv=Contract"], "indinv-implies-contract")]
+    ctl = apalache(["--cinit=ConstInitAsFound", "--init=Init", "--length=4", "--inv=Contract"], "asfound-violates-contract", expect_ok=False)
+    return obl, ctl
+
 def check(prop, tier):
     t0 = time.time()
     verdict = Verdict(prop)
@@ -21,6 +48,7 @@ def check(prop, tier):
         if r["violated"]:
             raise ToolError(f"design check {r['name']} violated {r['violated']} (see {r['out']})")
         runs.append(r)
+    obligations, control = backoff_proof()
     depth = 6 if tier == "thorough" else 4
     g = run_tlc("DaemonGen", f"SPECIFICATION Spec\nCONSTANTS Depth = {depth}\n", f"{prop}-gen", workers=1, java_opts="-Xss512m")
     cases = None
@@ -56,6 +84,9 @@ def check(prop, tier):
            "traces_validated_against_impl": stats.get("cases", 0), "samples": [chosen[0], chosen[-1]],
            "histories_enumerated_by_tlc": len(cases), "histories_run_on_the_real_loop": len(chosen),
            "run_starts_judged": stats.get("starts"), "retry_delays_judged": stats.get("retries"), "signals_raised": stats.get("signals"),
+           "apalache_inductive_invariant": {"module": "Backoff.tla", "for": "every period >= 1 s (unbounded integers)",
+                                            "obligations": len(obligations), "discharged": sum(1 for o in obligations if o["discharged"]),
+                                            "runs": obligations, "negative_control_as_found_cap": control},
            "tlc_runs": [{"name": r["name"], "distinct": r["distinct"], "generated": r["generated"]} for r in runs],
            "exhaustive": len(chosen) == len(cases), "known_findings_reproduced": verdict.known_hits,
            "rule": f"periods 10/45/60/100/300 s x all outcome sequences of length {depth} x (no signal | one SIGHUP/SIGINT/SIGTERM placed 1 s or "
